@@ -103,6 +103,8 @@ TraceNext ==
   \/ TAcct
   \/ /\ l <= Len(Rec) /\ l' = l + 1
      /\ Do(Rec[l])
+     \* sampled crash probes carry the page accounting of the recovered database (C11)
+     /\ (Rec[l].e = "probe" /\ "acct" \in DOMAIN Rec[l]) => AcctOk(Rec[l].acct @@ [i |-> l, run |-> 0])
      /\ lastAlloc' = lastAlloc /\ armed' = armed
      /\ clean' = (clean /\ ~MayChangeAlloc(Rec[l]))
 
